@@ -294,6 +294,15 @@ def gen_cases(rng, n):
         cases.append(d)
         cases.append({"kind": "geodetic", "model": d["model"], "h": float(d["h"]), "lat": float(d["lat"]), "lon": float(d["lon"])})
         cases.append({"kind": "poslos", "r": float(d["r"]), "lat": float(d["lat"]), "lon": float(d["lon"]), "za": float(d["za"]), "aa": float(d["aa"])})
+    for i in range(max(n // 100, 2)):
+        shape = [(3, 4), (2, 6), (2, 3, 2), (4, 3)][i % 4]
+        pos = []
+        while len(pos) < 12:
+            q = list(gen_position(rng))
+            q[1] = max(min(q[1], 87.5), -87.5)
+            if all(abs(q[1] - o[1]) > 1e-3 and abs(circ(q[2], o[2])) > 1e-3 for o in pos):     # all different: a permutation shows
+                pos.append(q)
+        cases.append({"kind": "layout", "model": rng.choice(MODELS), "shape": list(shape), "pos": pos})
     cases.append({"kind": "reject"})
     return cases
 
@@ -959,6 +968,104 @@ class Judge:
                 t += 64 * E32 * L * amp
             out.append(t)
         return out
+
+    # ------------------------------------------------------------------ memory layout of >= 2-d arguments
+    def layout(self, c, ans):
+        """the same VALUES in another memory layout (Fortran order, transposed view, strided slice of a bigger array,
+        negative strides, read-only) for ONE argument at a time and for all of them: the result must be the one of the
+        call on C-contiguous copies (to rounding: SIMD loops for strided data may differ in the last bits), the
+        arguments must not be modified and a second call must repeat the result.  The C-contiguous call itself is tied
+        to the scalar calls / the oracle by the kinds `shapes`, `arrays`, `geodetic`."""
+        g, np = self.g, self.np
+        raw = self.raw_ell[c["model"]]
+        ellf = self.ell[c["model"]]
+        P = np.array(c["pos"], dtype=float)                     # (12, 3): h, lat, lon — all different
+        shp = tuple(c["shape"])
+        H, LA, LO = (P[:, k].reshape(shp).copy() for k in range(3))
+        ZA = (7.0 + 13.0 * np.arange(P.shape[0])).reshape(shp) % 166.0 + 7.0
+        AA = np.array([circ(v * 1.7 + 11.0, 0.0) for v in P[:, 2]]).reshape(shp)
+        LOc = np.vectorize(lambda v: circ(v, 0.0))(LO)
+        R = 6.5e6 + np.abs(H)
+        X, Y, Z = (np.array(t) for t in g.geodetic2cart(H, LA, LO, ellf))
+        Pc = [np.array(t) for t in g.geocentricposlos2cart(R, LA, LOc, ZA, AA)]
+        LA2, LO2 = LA[::-1, ...].copy(), LO[..., ::-1].copy()
+
+        def relay(a, how):
+            if how == "F":
+                return np.asfortranarray(a)
+            if how == "T":                                       # transposed view of a C-contiguous transpose
+                return a.T.copy().T
+            if how == "strided":
+                big = np.full(tuple(2 * n + 1 for n in a.shape), -777.0)
+                sl = tuple(slice(1, None, 2) for _ in a.shape)
+                big[sl] = a
+                return big[sl]
+            if how == "negstride":
+                sl = tuple(slice(None, None, -1) for _ in a.shape)
+                return a[sl].copy()[sl]
+            r_ = a.copy()
+            r_.setflags(write=False)
+            return r_
+        funcs = [
+            ("geodetic2cart", lambda a_, b_, c_: g.geodetic2cart(a_, b_, c_, raw), [H, LA, LO], 1e-9 * ellf[0]),
+            ("cart2geodetic", lambda a_, b_, c_: g.cart2geodetic(a_, b_, c_, raw), [X, Y, Z], 1e-7),
+            ("geodetic2geocentric", lambda a_, b_, c_: g.geodetic2geocentric(a_, b_, c_, raw), [H, LA, LO], 1e-8),
+            ("geocentric2geodetic", lambda a_, b_, c_: g.geocentric2geodetic(a_, b_, c_, raw), [R, LA, LOc], 1e-7),
+            ("geocentric2cart", g.geocentric2cart, [R, LA, LO], 1e-8),
+            ("cart2geocentric", g.cart2geocentric, [X, Y, Z], 1e-8),
+            ("ellipsoid_r_geodetic", lambda a_: g.ellipsoid_r_geodetic(raw, a_), [LA], 1e-8),
+            ("ellipsoid_r_geocentric", lambda a_: g.ellipsoid_r_geocentric(raw, a_), [LA], 1e-8),
+            ("great_circle_distance", g.great_circle_distance, [LA, LO, LA2, LO2], 1e-6),
+            ("great_circle_distance(r)", lambda a_, b_, c_, d_, e_: g.great_circle_distance(a_, b_, c_, d_, r=e_), [LA, LO, LA2, LO2, R], 1.0),
+            ("tunnel_distance", g.tunnel_distance, [LA, LO, LA2, LO2], 1e-8),
+            ("geocentricposlos2cart", g.geocentricposlos2cart, [R, LA, LOc, ZA, AA], 1e-8),
+            ("cartposlos2geocentric", g.cartposlos2geocentric, Pc, 1e-6),
+        ]
+        for name, f, args, atol in funcs:
+            base_args = [np.ascontiguousarray(a).copy() for a in args]
+            keep = [a.copy() for a in base_args]
+            base = [np.array(t, dtype=float) for t in (lambda v: v if isinstance(v, (tuple, list)) else (v,))(f(*base_args))]
+            if any(not np.array_equal(a, b) for a, b in zip(base_args, keep)):
+                self.v(c, f"{name} modified an argument in place (shape {shp})", "argument-modified")
+                continue
+            again = [np.array(t, dtype=float) for t in (lambda v: v if isinstance(v, (tuple, list)) else (v,))(f(*base_args))]
+            if any(not np.array_equal(u, v, equal_nan=True) for u, v in zip(base, again)):
+                self.v(c, f"{name}: a second identical call returned a different result (shape {shp})", "not-repeatable")
+                continue
+            if any(t.shape != shp and name != "geocentric2cart" for t in base):
+                self.v(c, f"{name}: result shapes {[t.shape for t in base]} for arguments of shape {shp}")
+                continue
+            done = False
+            for how in ("F", "T", "strided", "negstride", "readonly"):
+                for target in list(range(len(args))) + ["all"]:
+                    la = [relay(a, how) if (target == "all" or target == i) else np.ascontiguousarray(a).copy() for i, a in enumerate(args)]
+                    try:
+                        out = f(*la)
+                    except Exception as ex:
+                        self.v(c, f"{name} raised {type(ex).__name__} for layout {how} of argument {target} (shape {shp}): {str(ex)[:120]}", "layout-raised")
+                        done = True
+                        break
+                    out = [np.array(t, dtype=float) for t in (out if isinstance(out, (tuple, list)) else (out,))]
+                    for k, (u, w) in enumerate(zip(out, base)):
+                        if u.shape != w.shape:
+                            bad = f"shape {u.shape} instead of {w.shape}"
+                        else:
+                            df = np.abs(u - w)
+                            if name in ("cart2geodetic", "geodetic2geocentric", "geocentric2geodetic", "cart2geocentric", "cartposlos2geocentric") and k >= 1:
+                                df = np.minimum(df, np.abs(360.0 - df))          # angles: modulo 360
+                            ok = (df <= atol + 1e-12 * np.abs(w)) | (np.isnan(u) & np.isnan(w))
+                            if bool(np.all(ok)):
+                                continue
+                            idx = tuple(int(t) for t in np.argwhere(~ok)[0])
+                            bad = f"element {idx} = {float(u[idx])!r} instead of {float(w[idx])!r}"
+                        self.v(c, f"{name}: argument {target} in memory layout {how} (same values, shape {shp}) changes result[{k}]: {bad}",
+                               "layout-dependent")
+                        done = True
+                        break
+                    if done:
+                        break
+                if done:
+                    break
 
     def reject(self, c, ans):
         g = self.g
